@@ -275,6 +275,16 @@ def check_handshake(ck: Checker, rid: str, mod):
             p = path_avoiding(cfg, [e for e in cfg.succ[tests[0].id] if e.kind == 'T'], {loop.id, cfg.exit_return}, avoid=joins)
             if p is not None:
                 probs.append('a failed handshake does not lead to join() of the failed worker')
+            # ... and that join waits as long as it takes: it is the statement that RAISES the worker's error; a timed
+            # join returns silently when the failed process lingers, and start() goes on as if the worker were up
+            onfail = reachable(cfg, [e.dst for e in cfg.succ[tests[0].id] if e.kind == 'T'], edge_ok=lambda ed: not ed.is_exc)
+            for jn in sorted(joins & onfail):
+                for c in calls_in(header_expr(cfg.nodes[jn])):
+                    if method_of(c)[1] == 'join' and (c.args or c.keywords) and not (len(c.args) == 1 and is_none(c.args[0])):
+                        after_j = reachable(cfg, [e.dst for e in cfg.succ[jn] if not e.is_exc], edge_ok=lambda ed: not ed.is_exc)
+                        raises_after = any(isinstance(cfg.nodes[k].ast, ast.Raise) for k in after_j if loop.id in cfg.nodes[k].loops)
+                        if not raises_after:
+                            probs.append(f'L{cfg.nodes[jn].lineno}: `{norm_text(c)}` is a timed join of the worker whose __init__ failed: when the failed process has not gone by then, nothing is raised and start() records it as a running worker')
         # a worker is recorded as started only after its handshake arrived: a worker whose __init__ failed must
         # never sit in `self._workers` (the rollback joins that list; joining the failed worker re-raises its error
         # half-way through, leaving the list and the started flag in a state that poisons every later enter/exit)
